@@ -329,7 +329,10 @@ def check_key(crate, rep, cfg):
                         direct.add(p[3:])
         key = "C15.KEY:%s:normalised" % f.path
         what = "dispatches strings through Key::as_str and numbers through Key::as_number and reads no numeric/string payload directly"
-        if not uses_str or not uses_num or direct:
+        if (not uses_str or not uses_num or direct) and f is f_hash and hash_classes_agree(crate, f):
+            rep.ok("C15.KEY", key, f.where(0), "Hash matches on the variants directly; every variant of one equality class feeds the hasher the same type (String/Str as "
+                   "`str`, all integer variants through KeyNumber)")
+        elif not uses_str or not uses_num or direct:
             rep.bad("C15.KEY", key, f.where(0), what + " — VIOLATED: as_str used=%s, as_number used=%s, direct payload reads of %s" % (
                 uses_str, uses_num, sorted(direct)))
         else:
@@ -453,3 +456,25 @@ def check_posctl(ctx, pos):
         fired = any(rank[a] == rank[b] for a, b in reaching)
     if not ctx.control("C15.ORD", fired):
         raise AnchorMissing("positive control for C15.ORD did not fire")
+
+
+def hash_classes_agree(crate, f):
+    """second accepted shape of `Hash for Key`: an exhaustive match; the set of types handed to the hasher is the same for all variants of an
+    equality class — {String, Str} hash a `str`, {U64, I64, U128, I128} hash a KeyNumber (whose own agreement is C15.KEYNUM)"""
+    from props.c09 import variant_switches
+    sig = {}
+    for sb, listed in variant_switches(f, crate, "key::Key"):
+        for v, tgt in listed.items():
+            region = {x for x in f.reach_from(tgt, removed_blocks=frozenset([sb])) if f.dominates(tgt, x)}
+            tys = set()
+            for bb, t in f.calls(sorted(region)):
+                if callee_def(t).endswith("hash::Hash::hash"):
+                    tys.add((t["f"].get("self_ty") or (t["atys"][0] if t["atys"] else "?")).lstrip("&"))
+            sig.setdefault(v, set()).update(tys)
+    strs = [sig.get(v) for v in STRING_KEY_VARIANTS]
+    nums = [sig.get(v) for v in NUMERIC_KEY_VARIANTS]
+    if not all(strs) or not all(nums):
+        return False
+    if any(x != strs[0] for x in strs) or any(x != nums[0] for x in nums):
+        return False
+    return strs[0] == {"str"} and any("KeyNumber" in x for x in nums[0]) and len(nums[0]) == 1
